@@ -1,6 +1,7 @@
 import SJ.Generated.Consts
 import SJ.Proofs.ParseWF
 import SJ.Proofs.CopyIndep
+import SJ.Proofs.CloneOwn
 /-
 C16 — Copied strings decouple results from the input buffer; Clone is independent.
 -/
@@ -41,5 +42,44 @@ theorem C16_parse_copied (nd : Bool) (input : Bytes) (pj : PJ) (hsz : SizeOK (tr
     ∃ lvs : List LVal, WalkLayout.OkRoots pj lvs 0 ∧ ∀ v ∈ lvs, CopyIndep.Copied pj v := by
   obtain ⟨lvs, h1, _, h3, _⟩ := SJ.ParseWF.parse_wf _ nd input pj hsz h
   exact ⟨lvs, h1, h3 rfl⟩
+
+open SJ.Own SJ.CloneOwn SJ.Generated in
+/-- **Clone returns a handle that owns its buffers.** For every heap, every receiver with valid slices (`SrcOK`) and
+    every destination — nil, or any handle whose buffers are not the receiver's (`DstOK`: whatever their capacities,
+    with or without a `TStrings`) — the regenerated body of `Clone` runs to completion and establishes `Cloned`: the
+    returned handle shows the receiver's `Message`, `Tape` and `Strings.B`; its three backing arrays and its `TStrings`
+    cell are none of the receiver's; the receiver's headers, cell and arrays are untouched. -/
+theorem C16_clone_owns_its_buffers (s : SJ.Own.St) (c : Nat) (hs : SrcOK s c) (hd : ∀ d0, s.dst = some d0 → DstOK s c d0) :
+    ∃ s1 d c', execL s cloneProg = some s1 ∧ Cloned s s1 c d c' :=
+  SJ.CloneOwn.clone_run s c hs hd
+
+open SJ.Own SJ.CloneOwn SJ.Generated in
+/-- **The original is immune to whatever happens to the clone.** Any later heap that differs from the heap Clone left
+    only OUTSIDE the original's three backing arrays and its `TStrings` cell — writes through the clone's slices anywhere
+    within their capacity, appends, re-allocations, a new header in the clone's cell — shows the original exactly what
+    it showed before Clone. -/
+theorem C16_clone_original_immune (s s1 : SJ.Own.St) (c : Nat) (d : SJ.Own.Hdl) (c' : Nat) (hc : Cloned s s1 c d c') (h' : SJ.Own.Heap)
+    (ha : ∀ a ∈ srcArrs s c, h'.arrs a = s1.h.arrs a) (hcell : h'.cells c = s1.h.cells c) :
+    view h' s1.pj.msg = view s.h s.pj.msg ∧ view h' s1.pj.tape = view s.h s.pj.tape ∧
+      view h' (h'.cells c) = view s.h (s.h.cells c) :=
+  SJ.CloneOwn.original_immune s s1 c d c' hc h' ha hcell
+
+open SJ.Own SJ.CloneOwn SJ.Generated in
+/-- **The clone is immune to whatever happens to the original** (edits, a parse that recycles it, `Reset`): any later
+    heap that agrees with the heap Clone left on the clone's three backing arrays and its cell shows the clone the
+    original's contents at the time of the call. -/
+theorem C16_clone_immune (s s1 : SJ.Own.St) (c : Nat) (d : SJ.Own.Hdl) (c' : Nat) (hc : Cloned s s1 c d c') (h' : SJ.Own.Heap)
+    (hm : h'.arrs d.msg.arr = s1.h.arrs d.msg.arr) (ht : h'.arrs d.tape.arr = s1.h.arrs d.tape.arr)
+    (hcell : h'.cells c' = s1.h.cells c') (hb : h'.arrs (s1.h.cells c').arr = s1.h.arrs (s1.h.cells c').arr) :
+    view h' d.msg = view s.h s.pj.msg ∧ view h' d.tape = view s.h s.pj.tape ∧
+      view h' (h'.cells c') = view s.h (s.h.cells c) :=
+  SJ.CloneOwn.clone_immune s s1 c d c' hc h' hm ht hcell hb
+
+open SJ.Own SJ.CloneOwn SJ.Generated in
+/-- it runs, the clone shows the same strings — and its cell points into the receiver's array (2) -/
+theorem C16_clone_sharing_expressible :
+    (execL exSt sharedProg).map (fun s1 => ((s1.dst.bind (·.strs)).map fun c' => ((s1.h.cells c').arr, view s1.h (s1.h.cells c')))) =
+      some (some (2, [5, 6])) :=
+  SJ.CloneOwn.shared_runs_and_aliases 
 
 end SJ.Properties.C16
